@@ -243,8 +243,3 @@ def install(eng):
                "prove": ["cond == InNs(ns, k)", "implies(InNs(ns, k), k[len(ns) + 1:] == NsKey(ns, k))"]}],
         serves=S)
 
-    from replay import enum_conf
-    for m in ("get", "__getitem__", "__setitem__", "__delitem__", "items", "dump", "get_namespace"):
-        eng.replayers[f"gwf.conf:FileConfig.{m}"] = enum_conf.replay
-    for m in ("try_int", "try_true", "try_false", "try_conv"):
-        eng.replayers[f"gwf.conf:{m}"] = enum_conf.replay
